@@ -2,7 +2,7 @@
 import ast
 
 from vstat.loader import AnalysisError
-from vstat.terms import IT, guarded_alts, builder, show, SELF, NONE, G, alts, walk, mentions, phi, galts
+from vstat.terms import CMP, IT, guarded_alts, builder, show, SELF, NONE, G, alts, walk, mentions, phi, galts
 from vstat.guards import path_conditions
 from vstat.cfg import cfg_of
 from vstat.sigs import bind
@@ -23,15 +23,16 @@ ASSUME = ["geometric correctness of the 4x4 linear solve for all polyline pairs 
 def run(prog, rep):
     rep.explanation = EXPL
     rep.assumptions = ASSUME
-    design(prog, rep)
-    inter(prog, rep)
+    rep.part(design, prog, rep)
+    rep.part(inter, prog, rep)
     rep.expect_min("C17.swap", 2)
     rep.expect_min("C17.probe", 2)
     rep.expect_min("C17.result", 3)
     rep.expect_min("C17.default", 2)
     rep.expect_min("C17.inrange", 2)
     rep.expect_min("C17.all", 1)
-
+    from .purity import row as _stateless_row
+    rep.part(_stateless_row, prog, rep, "C17", 2)
 
 def design(prog, rep):
     q = "virocon.utils.calculate_design_conditions"
@@ -129,10 +130,9 @@ def design(prog, rep):
         def nonempty(l):
             for ser in (ys, xs_):
                 ln = ("call", G("len"), (ser,), ())
-                if l in (("not", ("cmp", "==", ln, ("const", 0))), ("cmp", "!=", ln, ("const", 0)), ("cmp", ">", ln, ("const", 0)),
-                         ("cmp", ">=", ln, ("const", 1)), ("cmp", "<", ("const", 0), ln), ("cmp", "<=", ("const", 1), ln), ln,
-                         ("not", ("cmp", "<", ln, ("const", 1))), ("not", ("cmp", "<=", ln, ("const", 0))), ("not", ("not", ln)),
-                         ("cmp", ">", ("attr", ser, "size"), ("const", 0)), ("attr", ser, "size")):
+                if l in (("not", CMP("==", ln, ("const", 0))), CMP(">", ln, ("const", 0)), CMP(">=", ln, ("const", 1)), ln,
+                         ("not", CMP("<", ln, ("const", 1))), ("not", CMP("<=", ln, ("const", 0))), ("not", ("not", ln)),
+                         CMP(">", ("attr", ser, "size"), ("const", 0)), ("attr", ser, "size")):
                     return True
             return False
         for s_, _n in (fx, fy):
@@ -250,8 +250,8 @@ def inter(prog, rep):
         want = set()
         for row in (0, 1):
             tr = ("sub", T, ("tuple", (("const", row), ("slice", NONE, NONE, NONE))))
-            want.add(("cmp", ">=", tr, ("const", 0)))
-            want.add(("cmp", "<=", tr, ("const", 1)))
+            want.add(CMP(">=", tr, ("const", 0)))
+            want.add(CMP("<=", tr, ("const", 1)))
         # T[0, :] canonicalises to col/sub forms; compare by shape instead
         got = set()
         for c in parts:
